@@ -674,3 +674,59 @@ Proof.
 Qed.
 
 End Traces.
+
+(* ------------------------------------------------------------------ from a fresh connection *)
+Section FromNew.
+Context {CC : Type} (cci : cc_iface CC).
+Hypothesis Hcc : cc_total cci.
+
+Theorem vsock_new_x (mk_cc : Z -> Z -> CC) c :
+  vconfig_ok c = true ->
+  exists s0, vsock_new cci mk_cc c = Some s0 /\ tinv (vc_tx_init c) (vc_tx_max c) s0 /\
+             v_emsg_limit s0 = None.
+Proof.
+  intro Hok. destruct (vsock_new_inv cci mk_cc c Hok) as (s0 & E & Hinv).
+  exists s0. split; [exact E|].
+  unfold vconfig_ok in Hok. repeat (apply andb_true_iff in Hok; destruct Hok as [Hok ?]).
+  unfold vsock_new in E.
+  destruct (match (if vc_incoming c then None else Some (sat_sub (vc_now0 c) (vc_syn_sent c))) with
+            | Some r => sample rtte_default r | None => Some rtte_default end) as [rtte0|]; [|discriminate].
+  injection E as <-.
+  split; [split; [split; [exact Hinv|]|]|reflexivity].
+  - unfold sx, segs_aux, no_live, lp_all, np_le. cbn [v_segs v_ss v_now ss_segs segments_new removelast].
+    repeat split; try constructor; lia.
+  - cbn [v_env_now]. lia.
+Qed.
+
+(* (6) run_no_panic_no_bug: from a fresh connection with a valid configuration, every state of
+   every trace satisfies the invariant and no step panics or reports a Bug other than
+   BugEmsgSizeNoProbe *)
+Theorem run_no_panic_no_bug (mk_cc : Z -> Z -> CC) c ops :
+  vconfig_ok c = true -> Forall op_clock_ok ops ->
+  exists s0, vsock_new cci mk_cc c = Some s0 /\
+    Forall (obs_ok (vc_tx_init c) (vc_tx_max c) false) (vtrace cci s0 ops).
+Proof.
+  intros Hok Hoc. destruct (vsock_new_x mk_cc c Hok) as (s0 & E & Ht & _).
+  exists s0. split; [exact E|]. apply vtrace_x; assumption.
+Qed.
+
+Theorem run_no_bug_strict (mk_cc : Z -> Z -> CC) c ops :
+  vconfig_ok c = true -> Forall op_clock_ok ops -> Forall op_nolimit ops -> Forall op_script_legit ops ->
+  exists s0, vsock_new cci mk_cc c = Some s0 /\
+    Forall (obs_ok (vc_tx_init c) (vc_tx_max c) true) (vtrace cci s0 ops).
+Proof.
+  intros Hok Hoc Hnl Hsl. destruct (vsock_new_x mk_cc c Hok) as (s0 & E & Ht & Hl).
+  exists s0. split; [exact E|]. apply vtrace_strict; assumption.
+Qed.
+
+(* the extracted predicate of C10 (b) holds on the model's observation trace when no path limit is set *)
+Theorem c10_step_ok_nolimit (mk_cc : Z -> Z -> CC) c ops :
+  vconfig_ok c = true -> Forall op_clock_ok ops -> Forall op_nolimit ops ->
+  exists s0, vsock_new cci mk_cc c = Some s0 /\ c10_step_ok c (ftrace cci s0 ops) = true.
+Proof.
+  intros Hok Hoc Hnl. destruct (vsock_new_x mk_cc c Hok) as (s0 & E & Ht & Hl).
+  exists s0. split; [exact E|]. unfold c10_step_ok.
+  eapply (c10_trace_nolimit cci Hcc); eassumption.
+Qed.
+
+End FromNew.
